@@ -81,6 +81,10 @@ impl Kernel {
         let mut limit = want as u64;
         match eff {
             Some(Effect::Errno(e)) => {
+                if let Some(f) = self.fds.get(&fd) {
+                    let gi = f.gt_idx;
+                    self.gt.read_failed.insert(gi);
+                }
                 self.tr("read", fd_hash(&path), want as u64, -(e as i64));
                 return Err(e);
             }
@@ -95,6 +99,10 @@ impl Kernel {
             (f.kind.clone(), f.pos, f.read_err)
         };
         if let Some(e) = rerr {
+            if let Some(f) = self.fds.get(&fd) {
+                let gi = f.gt_idx;
+                self.gt.read_failed.insert(gi);
+            }
             self.tr("read", fd_hash(&path), want as u64, -(e as i64));
             return Err(e);
         }
